@@ -17,7 +17,8 @@ Expressions (first element is the tag):
 
 Statements:
   ["assign", lhs, rhs]
-  ["do", var, lo, hi, step|None, [body]]
+  ["do", var, lo, hi, step|None, [body]]  (optional 7th item: construct name;
+                                           ["exit"|"cycle", name] target it)
   ["if", [[cond, [body]], ...], [else_body] | None]
   ["select", expr, [[[item...], [body]], ...], [default] | None]
         item: ["v", expr] | ["r", lo|None, hi|None]
@@ -154,12 +155,14 @@ def stmts(body, ind):
         if t == "assign":
             out.append("%s%s = %s" % (p, ex(s[1]), top(s[2])))
         elif t == "do":
-            hdr = "%sdo %s = %s, %s" % (p, s[1], top(s[2]), top(s[3]))
+            cname = s[6] if len(s) > 6 and s[6] else None
+            hdr = "%s%sdo %s = %s, %s" % (p, cname + ": " if cname else "",
+                                          s[1], top(s[2]), top(s[3]))
             if s[4] is not None:
                 hdr += ", " + top(s[4])
             out.append(hdr)
             out += stmts(s[5], ind + 1)
-            out.append(p + "end do")
+            out.append(p + "end do" + (" " + cname if cname else ""))
         elif t == "if":
             for k, (cond, b) in enumerate(s[1]):
                 kw = "if" if k == 0 else "else if"
@@ -208,7 +211,7 @@ def stmts(body, ind):
         elif t == "verb":
             out.append(p + s[1])
         elif t in ("exit", "cycle", "return"):
-            out.append(p + t)
+            out.append(p + t + (" " + s[1] if len(s) > 1 and s[1] else ""))
         else:
             raise ValueError("stmt " + repr(s))
     return out
@@ -257,8 +260,12 @@ def routine_text(r, ind=1):
             p, pre, r["name"], ", ".join(r["args"]), r["result"]))
     else:
         pre = "pure " if r.get("pure") else ""
+        pre += r.get("prefix", "")
         out.append("%s%ssubroutine %s(%s)" % (p, pre, r["name"],
                                               ", ".join(r["args"])))
+    if r["kind"] != "program":
+        for u in r.get("uses", []):
+            out.append("%s  use %s" % (p, u))
     for d in r["decls"]:
         out.append(p + "  " + decl_text(d))
     out += stmts(r["body"], ind + 1)
@@ -267,7 +274,14 @@ def routine_text(r, ind=1):
 
 
 def module_text(unit):
-    out = ["module %s" % unit["module"], "  implicit none"]
+    out = []
+    # optional data-only modules: [{"name":, "decls": [...]}]; a routine
+    # imports from them with "uses": ["a_mod, only: scale"]
+    for em in unit.get("extra_modules", []):
+        out += ["module %s" % em["name"], "  implicit none"]
+        out += ["  " + decl_text(d) for d in em["decls"]]
+        out.append("end module %s" % em["name"])
+    out += ["module %s" % unit["module"], "  implicit none"]
     for d in unit.get("mod_decls", []):
         out.append("  " + decl_text(d))
     out.append("contains")
